@@ -157,6 +157,9 @@ def values(fl, rnd, key, fresh):
         # every manager of the workload registers its own marked term class under one name, so that whoever builds a term tells
         # which manager it asked
         fm = fl.FactoryManager()
+        MANAGERS.append(fm)
+        if rnd.random() < 0.4:
+            return fm  # a manager with exactly the registrations of the default one
         serial = len(SERIALS) + 1
         fm.term.constructors["Marker"] = type("Marker", (fl.Constant,), {"serial": serial})
         SERIALS[id(fm)] = serial
